@@ -55,6 +55,19 @@ static inline int h_cmp_result(long long x, long long y)
     return x > y ? mag : x < y ? -mag : 0;
 }
 
+/*
+ * Initial states.  (1) Objects are filled with H_POISON before their init
+ * function runs, so a field the init function forgets shows; (2) where the
+ * header offers a compile-time initializer, either some of the harness's objects
+ * are initialised ONLY by it (they are never passed to the init function), or a
+ * statically initialised twin is compared with a zero-filled object after its
+ * init function (reset() sets h_init_mismatch; the script then ends with
+ * "STOP static-initializer-differs-from-init").
+ */
+#define H_POISON 0xA5
+#define H_POISON_OBJ(obj) memset(&(obj), H_POISON, sizeof(obj))
+extern int h_init_mismatch;
+
 size_t h_size(const char * s);
 long long h_int(const char * s);
 
